@@ -65,7 +65,9 @@ def strategy(tier):
         lambda t: t[0] + [['write', t[1], 'w', t[2]], ['commit']] + ([['write', t[1], 'a', t[4]], ['commit']] if t[3] else [])
         + ([['undo2']] if t[3] and t[5] else [['undo', t[5]]]) + ([['undo', 0]] if t[6] else [])
         + [['pack', t[7]], ['observe', True], ['read', t[1]]] + t[8])
-    return st.fixed_dictionaries({'kind': st.sampled_from(['fs', 'fs', 'bmap']),
+    # (the statement names FileStorage with a blob directory and the wrapper over a MappingStorage; the wrapper over a
+    # FileStorage without blob directory - its undo-aware pack and its own undo - is driven as well)
+    return st.fixed_dictionaries({'kind': st.sampled_from(['fs', 'fs', 'fs', 'bmap', 'bmap', 'bfs', 'fs-nokeep']),
                                   'ops': st.one_of(free, free.map(list), free.map(tuple).map(list), phased, phased2)})
 
 
@@ -107,6 +109,9 @@ class BlobWorld:
         self.blob_dir = os.path.join(d, 'blobs')
         if kind == 'fs':
             self.storage = FileStorage(os.path.join(d, 'Data.fs'), blob_dir=self.blob_dir)
+        elif kind == 'fs-nokeep':
+            # (packs do not keep the old data file and the old blob files)
+            self.storage = FileStorage(os.path.join(d, 'Data.fs'), blob_dir=self.blob_dir, pack_keep_old=False)
         elif kind == 'bfs':
             self.storage = BlobStorage(self.blob_dir, FileStorage(os.path.join(d, 'Data.fs')))
         else:
@@ -187,6 +192,14 @@ class BlobWorld:
             key = (os.path.relpath(os.path.dirname(p), self.blob_dir), os.path.basename(p))
             exp_files[key] = (b, oid, tid)
         for key, (b, oid, tid) in exp_files.items():
+            if key not in files and self.kind == 'bfs' and getattr(self, 'packed_since_ever', False):
+                # the wrapper over a FileStorage packs by asking loadSerial: a record the packed file keeps only as the
+                # carrier of a pickle (not loadable as a revision any more) has lost its file
+                from ZODB.POSException import POSKeyError
+                try:
+                    self.storage.loadSerial(oid, tid)
+                except POSKeyError:
+                    continue
             if key not in files:
                 self.fail('blob-files', 'missing',
                           '%s: the storage lists a blob record for oid %s tid %s but there is no committed file %s' % (
@@ -539,7 +552,9 @@ class BlobWorld:
         """both: the two most recent transactions are undone in ONE transaction (two records of a blob they
         both wrote end up in it)"""
         from ZODB.POSException import UndoError
-        if self.kind == 'bmap':
+        if self.kind in ('bmap', 'bfs'):
+            # (the wrapper over a FileStorage is outside the statement's two configurations; its own undo is driven only
+            # by C15's restricted histories: here it takes part for commit, abort and its undo-aware pack)
             return
         if self.dirty():
             self.commit()
@@ -627,12 +642,17 @@ class BlobWorld:
         clock.CLOCK.advance(1.0)
         self.labels.add('pack')
         self.packed_since = True
+        self.packed_since_ever = True
         self.pack_tid = max(getattr(self, 'pack_tid', tid), tid)
         if len(list_blob_files(self.blob_dir)) < n_before:
             self.labels.add('pack-removed-blob-file')
             self.interesting = True
         # files legitimately removed by the pack are forgotten by the immutability tracker in check_files
         self.check_files('after pack') and self.check_writer('after pack') and self.check_observer('after pack', True)
+        if self.kind == 'fs-nokeep':
+            left = [x for x in os.listdir(self.scratch) if x.endswith('.old')]
+            if left:
+                self.fail('pack', 'old-files-kept-against-the-option', 'pack_keep_old=False: %r exist after the pack' % left)
 
 
 def execute(case):
